@@ -10,6 +10,7 @@ import sys
 import time
 
 VERIF = os.path.dirname(os.path.dirname(os.path.abspath(__file__)))
+OUTDIR = os.environ.get('VF_OUT', VERIF)      # evidence/ and replays/ go here (default: /verif itself)
 REPO = os.environ.get('VF_REPO', '/repo')
 PY_SYM = os.environ.get('VF_PY_SYM', '/opt/veriftools/pyvenv/bin/python')
 PY_REAL = os.environ.get('VF_PY_REAL', '/venv/bin/python')
@@ -105,7 +106,7 @@ def match_known(known, pid, ob, args, kwargs, rep=None):
 
 
 def write_replay(pid, ob, args, kwargs, res, rep):
-    d = os.path.join(VERIF, 'replays', pid)
+    d = os.path.join(OUTDIR, 'replays', pid)
     os.makedirs(d, exist_ok=True)
     payload = {'property': pid, 'obligation': ob['name'], 'module': ob['module'], 'func': ob['func'],
                'params': ob.get('params', {}), 'args': args, 'kwargs': kwargs or {},
@@ -286,6 +287,6 @@ def _write_evidence(pid, tier, seed, meta, rows, pre, t0, nviol, nvalid=0, note=
         'wall_s': round(time.time() - t0, 1),
         'violations': nviol,
     }
-    os.makedirs(os.path.join(VERIF, 'evidence'), exist_ok=True)
-    with open(os.path.join(VERIF, 'evidence', pid + '.json'), 'w') as f:
+    os.makedirs(os.path.join(OUTDIR, 'evidence'), exist_ok=True)
+    with open(os.path.join(OUTDIR, 'evidence', pid + '.json'), 'w') as f:
         json.dump(ev, f, indent=1, default=repr)
